@@ -72,9 +72,16 @@ func propC18Watcher(t veriflib.TB, outer *testing.T, c c18wCase) {
 	defer func() { config.Get().MinSpaceRequired = saved }()
 	stats.Init()
 
+	// StopDiskWatcher waits on a package-level sync.WaitGroup, which testing/synctest does not treat as a durable block:
+	// a watcher that does not return on stop freezes the bubble's clock. The real-time watchdog reports that (also for
+	// C03: a stop that does not return).
+	veriflib.WatchStart(90 * time.Second)
+	veriflib.WatchAlso("C03", "C03/watcher-stop")
+	defer veriflib.WatchCase("C18", facet, c)()
 	var hist []string
 	viol := ""
 	transitions, foreign := 0, 0
+	stoppedPaused := false
 	synctest.Test(outer, func(st *testing.T) {
 		pause.VerifReset()
 		diskWatcherCtx, diskWatcherCancel = context.WithCancel(context.Background())
@@ -176,6 +183,7 @@ func propC18Watcher(t veriflib.TB, outer *testing.T, c c18wCase) {
 			}
 		}
 		// stop, in whatever state
+		stoppedPaused = pause.IsPaused()
 		done := make(chan struct{})
 		go func() { StopDiskWatcher(); close(done) }()
 		select {
@@ -184,7 +192,9 @@ func propC18Watcher(t veriflib.TB, outer *testing.T, c c18wCase) {
 			if viol == "" {
 				viol = fmt.Sprintf("StopDiskWatcher did not return within a virtual hour (paused=%v)", pause.IsPaused())
 			}
-			// cannot leave the bubble with the watcher stuck: report and give up on this process
+			// cannot leave the bubble with the watcher stuck: report and give up on this process. A stop that does not
+			// return is also what C03 rules out (the disk watcher is the first thing stopPipeline() stops).
+			veriflib.WriteFailure("C03", "C03/watcher-stop", c, hist, viol)
 			veriflib.WriteFailure("C18", facet, c, hist, viol)
 			veriflib.Flush()
 			fmt.Fprintln(os.Stderr, "C18/watcher:", viol)
@@ -205,12 +215,16 @@ func propC18Watcher(t veriflib.TB, outer *testing.T, c c18wCase) {
 		cl = append(cl, "mode:"+ph.Mode)
 	}
 	veriflib.Record(facet, veriflib.JSON(c), transitions >= 2, cl, func() any { return map[string]any{"case": c, "history": hist} })
+	// the same run is evidence for C03: the stop of the disk watcher returned, also while its own pause was in force
+	veriflib.Record("C03/watcher-stop", veriflib.JSON(c), stoppedPaused, []string{fmt.Sprintf("stopped-while-paused-by-the-watcher:%v", stoppedPaused)}, func() any {
+		return map[string]any{"case": c, "history": hist}
+	})
 }
 
 func TestVerif_C18_Watcher(t *testing.T) {
 	defer veriflib.Flush()
 	var rc c18wCase
-	if veriflib.ReplayCase("C18/watcher", &rc) {
+	if veriflib.ReplayCase("C18/watcher", &rc) || veriflib.ReplayCase("C03/watcher-stop", &rc) {
 		propC18Watcher(t, t, rc)
 		return
 	} else if veriflib.Replaying() {
